@@ -126,11 +126,11 @@ PLAN = {
     "C10": dict(
         title="Feedback blocks keep their repeated layers weight-tied",
         level="proof",
-        verus=["C10_feedback.rs"],
+        verus=["C10_feedback.rs", "C10_unroll.rs"],
         kani=True,
         native_checks=[("feedback.tied", "bounded native grid: repetitions bit-identical at creation and after training, parameters() counts once; 192 block networks")],
         undecided_clauses=[
-            "copies are equal at creation: follows from `layers.extend(_layers.clone())` (derived Clone), read not verified",
+            "copies are equal at creation: proved for the unrolling region of Feedback::create (unit feedback.unroll, R52) under the assumption that the derived `Clone` of a layer returns an equal value",
             "the accumulation arms (add/subtract/multiply/mean over the members) and the per-copy optimizer steps of Feedback::update are NOT "
             "verified (whole function out of reach of both tools); the claim is that whatever they produce, the final loop overwrites every "
             "member of every couple with ONE value and the couples cover every unrolled layer",
@@ -139,13 +139,13 @@ PLAN = {
     "C11": dict(
         title="A feedback block computes the repeated, optionally skip-combined, layer sequence",
         level="proof",
-        verus=["C11_skip_table.rs", "C11_forward.rs", "C08_dense_after.rs"],
+        verus=["C11_skip_table.rs", "C11_forward.rs", "C08_dense_after.rs", "C10_unroll.rs"],
         kani=True,
         native_checks=[("feedback.forward", "bounded native grid: Feedback::forward against the L-fold repeated, skip-combined layer sequence; 480 blocks")],
         undecided_clauses=[
             "tensors, shapes and each layer's forward pass are abstract in the forward unit (what a layer computes is C02; that the "
             "repetitions hold equal layers is C10; the element-wise meaning of add/sub/mul/mean is C15)",
-            "that Feedback::create unrolls the layer list `loops` times (layers.extend(clone)): read, not verified; that Network::dense sets the flatten "
+            "that Feedback::create unrolls the layer list `loops` times is proved (unit feedback.unroll: repetition i of block layer l sits at l + i*length and equals the original); that Network::dense sets the flatten "
             "flag of a preceding spatial block (and layer) and takes the flattened count is proved (unit network.dense.after)"],
     ),
     "C12": dict(
